@@ -449,6 +449,9 @@ impl TypedStmt {
                 vec![]
             }
             StmtEnum::VarAssign(identifier, accessors, value) => {
+                // the assigned value is evaluated first, because it might itself assign to (parts
+                // of) the variable and those changes must not be lost:
+                let mut value = value.compile(prg, env, circuit);
                 let mut collection = env.get(identifier).unwrap();
                 let mut accessed = vec![];
                 enum Assign {
@@ -574,7 +577,6 @@ impl TypedStmt {
                         }
                     }
                 }
-                let mut value = value.compile(prg, env, circuit);
                 for assign in accessed.into_iter().rev() {
                     match assign {
                         Assign::Array(mut array, elem_bits, mut index) => {
